@@ -156,6 +156,20 @@ func evalRoleRanges(pkg *packages.Package, fd *ast.FuncDecl, n0, n1, nw, nout in
 				}
 			}
 		case *ast.CallExpr:
+			// the garbler-input labels moved as one vector: X.ReceiveLabels(wires[:n]) / SendLabels(wires[:n])
+			if _, name, _ := callName(t); f.labelLoopBound < 0 && len(t.Args) == 1 && (strings.HasPrefix(name, "Receive") || strings.HasPrefix(name, "Send")) && strings.HasSuffix(name, "Labels") {
+				if sl, ok := t.Args[0].(*ast.SliceExpr); ok && isWires(sl.X) && sl.High != nil {
+					lo := int64(0)
+					okLo := true
+					if sl.Low != nil {
+						lo, okLo = ev(sl.Low)
+					}
+					if hi, ok := ev(sl.High); ok && okLo && lo == 0 {
+						f.labelLoopBound = hi
+						f.labelIndex = "i" // element i of a window that starts at wire 0
+					}
+				}
+			}
 			if _, name, _ := callName(t); (name == "Send" || name == "Receive") && len(t.Args) >= 1 {
 				arg := t.Args[len(t.Args)-1]
 				if sl, ok := arg.(*ast.SliceExpr); ok && sl.Low != nil && sl.High != nil {
